@@ -111,7 +111,7 @@ def main():
             else:
                 caught = []
                 for p in props:
-                    rc, o = sh([os.path.join(ROOT, "check"), p], ROOT)
+                    rc, o = sh(["env", "VERIF_OUT=/tmp/mutsweep-out", os.path.join(ROOT, "check"), p], ROOT)
                     if rc != 0:
                         kinds = re.findall(r"VIOLATION property=\S+ replay=\S*?([^/]+)\.json( no-failing-input-found)?", o)
                         caught.append({"prop": p, "how": [k[0][:60] + (" (nfi)" if k[1] else "") for k in kinds][:3]})
